@@ -1,4 +1,5 @@
 mod c01;
+mod c02;
 mod c03;
 mod c04;
 mod c05;
@@ -87,6 +88,7 @@ fn main() {
         ("gen", "C04") => { c05::generate("C04", seed, &tier, &mut out); c01::generate("C04", seed, &tier, &mut out); c04::generate(seed, &tier, &mut out) }
         ("gen", "C07") => c01::generate("C07", seed, &tier, &mut out),
         ("gen", "C18") => c01::generate("C18", seed, &tier, &mut out),
+        ("gen", "C02") => { c02::generate(seed, &tier, &mut out); c01::generate("C02", seed, &tier, &mut out) }
         ("gen", "C03") => c03::generate(seed, &tier, &mut out),
         ("gen", "C14") => c14::generate(seed, &tier, &mut out),
         ("gen", "C11") => c11::generate(seed, &tier, &mut out),
